@@ -116,6 +116,8 @@ impl OperationControl for Repeat {
                 iterators.push(Box::new(std::iter::once(position)));
                 positions.push(p);
             }
+            // the entry for zero occurrences does not count as an iteration
+            let zero = iterators.len();
             for _i in 0..bound {
                 #[cfg(regexml_verif)]
                 crate::verif::tick();
@@ -137,7 +139,7 @@ impl OperationControl for Repeat {
                 self.operation.as_ref(),
                 iterators,
                 positions,
-                bound,
+                bound + zero,
                 min,
             );
             if needs_progress_guard {
